@@ -36,7 +36,51 @@ func coordSubscribes(subs []string, topic string) bool {
 	return false
 }
 
-func (coordC12) Check(w *coordWorld, st *coordStep) []xstate.Violation {
+func (coordC12) KeepSyncBytes() bool { return true }
+
+// coordRetainedCheck re-reads, after every event, the MemberAssignment slices of the successful
+// SyncGroup replies of the current generation exactly as they were returned (a client may read its
+// reply at any later time): (a) the bytes must still be what they were at reply time; (b) once
+// every current member holds a reply of this generation, the retained replies are judged like the
+// decoded ones: subscribed topics only, pairwise disjoint, every partition exactly one owner.
+func coordRetainedCheck(w *coordWorld, st *coordStep) []xstate.Violation {
+	var out []xstate.Violation
+	retained := map[string]map[string][]int32{}
+	for _, id := range st.Post.IDs {
+		k := w.kept[id]
+		if k == nil || k.Gen != st.Post.Gen {
+			continue
+		}
+		if string(k.Raw) != string(k.Copy) {
+			out = append(out, coordViol("sync-reply-bytes-changed-after-later-sync", "the MemberAssignment bytes handed to %s in generation %d were %x at reply time and read %x after the later %s event", w.name(id), k.Gen, k.Copy, k.Raw, st.K))
+		}
+		a, err := coordDecodeAssignment(k.Raw)
+		if err != nil {
+			out = append(out, coordViol("retained-sync-reply-undecodable", "the retained sync reply of %s (generation %d) no longer decodes after %s: %v", w.name(id), k.Gen, st.K, err))
+			continue
+		}
+		retained[id] = a
+	}
+	// unchanged bytes decode to exactly the replies that checkSync judges (with its own keys): the
+	// cover over the retained slices only says something new when some slice changed
+	if len(out) == 0 || st.K != "sync" || st.Resp == nil || !st.Resp.ok() || len(retained) != len(st.Post.IDs) {
+		return out
+	}
+	subsOf := func(id string) []string {
+		if m := w.led.M[id]; m != nil {
+			return m.Subs
+		}
+		return nil
+	}
+	return append(out, coordCoverCheck(w, "retained reply", retained, st.Post.IDs, subsOf, true)...)
+}
+
+func (c12 coordC12) Check(w *coordWorld, st *coordStep) []xstate.Violation {
+	out := coordRetainedCheck(w, st)
+	return append(out, c12.checkSync(w, st)...)
+}
+
+func (coordC12) checkSync(w *coordWorld, st *coordStep) []xstate.Violation {
 	if st.K != "sync" {
 		return nil
 	}
